@@ -546,6 +546,40 @@ func execKey(r *recorder, in *Input) Result {
 		env2.Sign(pool("ed1").Priv)
 		r.call("Envelope.VerifySignature(foreign signature)", func() error { return env2.VerifySignature(k) })
 	}
+	// Step.CheckCertConstraints with the key as "certificate key" (its certificate field, or the public text in its place)
+	kc := k
+	if kc.KeyVal.Certificate == "" {
+		kc.KeyVal.Certificate = k.KeyVal.Public
+	}
+	cst := intoto.Step{CertificateConstraints: []intoto.CertificateConstraint{{CommonName: "*", Roots: []string{"*"}, DNSNames: []string{"*"}, Emails: []string{"*"}, Organizations: []string{"*"}, URIs: []string{"*"}}}}
+	r.call("Step.CheckCertConstraints", func() error {
+		return cst.CheckCertConstraints(kc, []string{kc.KeyID}, x509.NewCertPool(), x509.NewCertPool())
+	})
+	// the key texts as key files and as the certificate of a signature
+	for i, txt := range []string{k.KeyVal.Public, k.KeyVal.Private} {
+		if txt == "" {
+			continue
+		}
+		txt := txt
+		r.call(fmt.Sprintf("LoadKeyReaderDefaults(key text %d)", i), func() error {
+			var kk intoto.Key
+			if err := kk.LoadKeyReaderDefaults(strings.NewReader(txt)); err != nil {
+				return err
+			}
+			m := &intoto.Metablock{Signed: lnk}
+			if err := m.Sign(kk); err != nil {
+				return err
+			}
+			return m.VerifySignature(kk)
+		})
+		r.call(fmt.Sprintf("Signature.GetCertificate(key text %d)", i), func() error {
+			ck, err := intoto.Signature{KeyID: k.KeyID, Sig: "00", Certificate: txt}.GetCertificate()
+			if err != nil {
+				return err
+			}
+			return cst.CheckCertConstraints(ck, []string{}, x509.NewCertPool(), x509.NewCertPool())
+		})
+	}
 	// as the layout verification key
 	kp := pool("ed1")
 	l := ruleLayout([]string{"ALLOW", "*"}, false, kp)
